@@ -393,7 +393,7 @@ impl Strs {
     }
 }
 
-const STR_ALPHABET: &[&[u8]] = &[b"", b"a", b"ab", b"b", b"a\0", b"\xff"];
+const STR_ALPHABET: &[&[u8]] = &[b"", b"a", b"ab", b"b", b"a\0", b"\xff", b"a\0b", b"\0"];
 const SLEN: &[usize] = &[0, 1, 2, 3, 4, 5, 8, 9, 16, 17, 33, 100, 101, 257];
 
 fn str_inputs(tier: Tier, f: &mut dyn FnMut(Strs) -> bool) -> bool {
@@ -411,7 +411,32 @@ fn str_inputs(tier: Tier, f: &mut dyn FnMut(Strs) -> bool) -> bool {
     true
 }
 
-const STR_SPACE: &str = "S = all lists of <= 4 (quick) / <= 5 (thorough) strings over {\"\", a, ab, b, a\\0, \\xff}; G = list lengths \
+/// sort_bytes only: additionally every list of <= 2 (quick) / <= 3 (thorough) strings drawn from ALL 40 byte strings of
+/// length <= 3 over {00, 61, ff} (two strings that agree up to and including a 0x00 / 0xff byte and differ after it)
+fn str_inputs_dense(tier: Tier, f: &mut dyn FnMut(Strs) -> bool) -> bool {
+    if !str_inputs(tier, f) {
+        return false;
+    }
+    let mut alpha: Vec<Vec<u8>> = vec![vec![]];
+    let mut level: Vec<Vec<u8>> = vec![vec![]];
+    for _ in 0..3 {
+        let mut next = Vec::new();
+        for s in &level {
+            for b in [0x00u8, 0x61, 0xff] {
+                let mut t = s.clone();
+                t.push(b);
+                next.push(t);
+            }
+        }
+        alpha.extend(next.iter().cloned());
+        level = next;
+    }
+    let alpha: Vec<String> = alpha.iter().map(|s| hex(s)).collect();
+    all_strings(&alpha, tier.pick(2, 3), &mut |s| f(Strs::List(s.to_vec())))
+}
+const STR_SPACE_DENSE: &str = "as S/G below, plus every list of <= 2 (quick) / <= 3 (thorough) strings from all 40 byte strings of length <= 3 over {00,61,ff}; ";
+
+const STR_SPACE: &str = "S = all lists of <= 4 (quick) / <= 5 (thorough) strings over {\"\", a, ab, b, a\\0, \\xff, a\\0b, \\0}; G = list lengths \
 {0,1,2,3,4,5,8,9,16,17,33,100,101,257} x {sorted, reversed, all equal, common 12-byte prefix, organ pipe, prefix chain, first-byte-only}";
 
 fn brief_strs(v: &[Vec<u8>]) -> String {
@@ -1780,7 +1805,7 @@ fn main() {
     zverif::main_with("C11", |reg, _tier| {
         add(reg, "RadixSort::sort_u32", &format!("{INT_SPACE} x radix_bits {{1,4,8,11,16}} x parallel {{off, threshold 1,4,16}} x counting threshold {{0,4,256}} (keys <= 2^16 when counting is enabled, plus 3 cases with 2^24)"), radix_gen(false), run_radix_u32);
         add(reg, "RadixSort::sort_u64", &format!("{INT_SPACE} x radix_bits {{1,4,8,11,16}} x parallel {{off, threshold 1,4,16}}"), radix_gen(true), run_radix_u64);
-        add(reg, "RadixSort::sort_bytes", STR_SPACE, |t, f| str_inputs(t, f), run_sort_bytes);
+        add(reg, "RadixSort::sort_bytes", &format!("{STR_SPACE_DENSE}{STR_SPACE}"), |t, f| str_inputs_dense(t, f), run_sort_bytes);
 
         add(reg, "KeyValueRadixSort::sort_by_key", &format!("key types u32 and u64 x {INT_SPACE}; value = original index; default config (the type offers no other); thorough adds n=20001 (parallel split)"), kv_gen, run_kv_case);
 
